@@ -72,7 +72,8 @@ def _work(task):
                         if not z3.is_quantifier(a_):
                             s_.add(a_)
                     s_.add(z3.Not(ob.goal))
-                    if s_.check() == z3.sat:
+                    from pyvc.discharge import zcheck
+                    if zcheck(s_, 5000) == z3.sat:
                         zm = s_.model()
                 except z3.Z3Exception:
                     zm = None
